@@ -11,5 +11,7 @@ def run(rep, ctx):
     g = ctx.g
     from .c01 import run_N_writer
     run_N_writer(rep, g, ['write::cfi::'])
+    from ..guards import run_D9
+    run_D9(rep, g)
     run_specs(rep, ctx, 'C14')
     k1_pairing(rep, g, 'K1-cfa', S['w_cfi_instr'], [S['cfi_instr_parse']], 'DW_CFA_')
